@@ -2437,6 +2437,7 @@ class C01(Check):
 
     # ---- the property's predicate on what the implementation returned -----------------------------
     def spec(self, case, io, mo):
+        self._mo = mo                # (classify is called right after spec for the same case)
         if not isinstance(io, dict) or "decl" in io:
             return None
         v = io.get("viol")
@@ -2450,6 +2451,7 @@ class C01(Check):
         return None
 
     def classify(self, case, io, why):
+        self._io_out = io.get("out") if isinstance(io, dict) else None
         v = (io.get("viol") or {})
         info = v.get("out") or v.get("out_collect")
         if not info:
@@ -2482,6 +2484,21 @@ class C01(Check):
                         except Exception:
                             continue
             if any(canon(x) == canon(info["val"]) for x in subs):
+                return "applied-instance-skips-constraints"
+            if isinstance(info["val"], dict) and set(info["val"]) == {"s"}:
+                # a str instance cut out of / decoded from a text or bytes of the input by the enclosing conversion
+                texts = []
+                for x in subs:
+                    _walk_json_values(x, texts)
+                texts = [t for t in texts if isinstance(t, str)]
+                pieces = {p.strip() for t in texts for p in re.split(r"[,;]", t)} | set(texts) | {t.strip() for t in texts}
+                if info["val"]["s"] in pieces:
+                    return "applied-instance-skips-constraints"
+            # an instance produced on the way (by an earlier `&` condition, by the enclosing container's conversion): the
+            # model — which mirrors the shortcut and nothing else that could skip a validator — predicts this very result
+            mo, out = getattr(self, "_mo", None), (getattr(self, "_io", None) or {})
+            if isinstance(mo, dict) and "ok" in mo and isinstance(self._io_out, dict) and "ok" in self._io_out \
+                    and canon(mo["ok"]) == canon(self._io_out["ok"]):
                 return "applied-instance-skips-constraints"
             return None
         cons = (node.get("rule") or {}).get("cons") if "rule" in node else (node["apply"].get("cons") if "apply" in node else node.get("cons"))
@@ -2521,6 +2538,13 @@ class C01(Check):
                 return "subclass-result-plain"            # to_timedelta: sign * t(**kw) for a duration text
             if base["t"] == "Decimal" and any(c[0] == "decimal_places" for c in (cons or [])):
                 return "subclass-result-plain"            # round() in the decimal_places validator
+            if base["t"] in ("int", "time", "timedelta"):
+                # the text / datetime arose on the way (an earlier `&` condition, the enclosing container's conversion):
+                # Conv.lean mirrors exactly these three branches, and the model predicts this very result
+                mo = getattr(self, "_mo", None)
+                if isinstance(mo, dict) and "ok" in mo and isinstance(self._io_out, dict) and "ok" in self._io_out \
+                        and canon(mo["ok"]) == canon(self._io_out["ok"]):
+                    return "subclass-result-plain"
         return None
 
     def neighbours(self, case, rng):
